@@ -398,3 +398,28 @@ func (u *Universe) FnName(f *ssa.Function) string {
 	s = strings.ReplaceAll(s, "uni/ctl/", "ctl/")
 	return s
 }
+
+// loadGenSyntax loads the generator packages (syntax + types) from the working tree.
+func loadGenSyntax(u *Universe) ([]*packages.Package, error) {
+	cfg := &packages.Config{Mode: packages.LoadSyntax, Dir: u.ModDir, Env: goEnv(), Fset: u.fsetOrNew()}
+	pkgs, err := packages.Load(cfg, genPkgs...)
+	if err != nil {
+		return nil, err
+	}
+	if len(pkgs) != len(genPkgs) {
+		return nil, fmt.Errorf("expected %d generator packages, loaded %d", len(genPkgs), len(pkgs))
+	}
+	for _, p := range pkgs {
+		if len(p.Errors) > 0 {
+			return nil, fmt.Errorf("%s: %v", p.PkgPath, p.Errors[0])
+		}
+	}
+	return pkgs, nil
+}
+
+func (u *Universe) fsetOrNew() *token.FileSet {
+	if u.Fset == nil {
+		u.Fset = token.NewFileSet()
+	}
+	return u.Fset
+}
